@@ -36,11 +36,16 @@ _CACHE = {}
 ALL_MSGSETS = ("SIGNONMSGSET", "BANKMSGSET", "CREDITCARDMSGSET", "INVSTMTMSGSET", "PROFMSGSET", "SIGNUPMSGSET", "TAX1099MSGSET")
 
 
-def profile(mins, url, dtprofup="20200101000000.000[+0:UTC]", status="0", with_profrs=True, msgsets=ALL_MSGSETS, closingavail="Y"):
+def profile(mins, url, dtprofup="20200101000000.000[+0:UTC]", status="0", with_profrs=True, msgsets=ALL_MSGSETS, closingavail="Y",
+            finame=None):
     key = (id(mins), url, status, with_profrs, tuple(msgsets), closingavail)
     if key not in _CACHE:
         _CACHE[key] = _profile(mins, url, "@@DTPROFUP@@", status, with_profrs, msgsets, closingavail)
-    return _CACHE[key].replace("@@DTPROFUP@@", dtprofup)
+    text = _CACHE[key].replace("@@DTPROFUP@@", dtprofup)
+    if finame is not None:
+        import re
+        text = re.sub(r"<FINAME>[^<]*</FINAME>", "<FINAME>%s</FINAME>" % finame, text, count=1)
+    return text
 
 
 def _profile(mins, url, dtprofup, status, with_profrs, msgsets=ALL_MSGSETS, closingavail="Y"):
